@@ -15,7 +15,7 @@ Behaviour ==
    focus |-> focus, stmtpat |-> IsStmtPat,
    matches |-> {MatchRec(m) : m \in AllMatches},
    regions |-> {[r |-> r, ms |-> {[bp |-> m.bp, i |-> m.i] : m \in MatchesIn(r)}] : r \in Regions},
-   ambiguous |-> Ambiguous, accepted |-> (IF IsStmtPat THEN {[bp |-> x.bp, i |-> x.i] : x \in RopeAccepted} ELSE {}), mlb |-> BrokenBinding, orderskip |-> OrderSkip, elifhit |-> IsStmtPat /\ ElifHit,
+   ambiguous |-> Ambiguous, earlier |-> {TokStrs(Toks(e, NoDeco)) : e \in Earlier}, accepted |-> (IF IsStmtPat THEN {[bp |-> x.bp, i |-> x.i] : x \in RopeAccepted} ELSE {}), mlb |-> BrokenBinding, orderskip |-> OrderSkip, elifhit |-> IsStmtPat /\ ElifHit,
    goals |-> {GoalRec(gl) : gl \in Goals}]
 Export == Done => PrintT(<<"BEH", ToJson(Behaviour)>>)
 =============================================================================
